@@ -183,6 +183,55 @@ def consts_oracle(consts, variant):
     return out
 
 
+def classification_probe(chk):
+    """flash-algo-new keeps total_status private: its classification of every legal (kind, external, internal, boot) header is
+       observed through the API on a device that also holds a resumable update (so try_recover performs its remediation):
+       bl_boot_status, fallback_firmware and what recovery does to the probed slot - compared with the model and with the
+       behaviour the documented lifecycle table prescribes for the class"""
+    from . import session, ring
+    g = ring.Geo(4)
+    cases, meta = [], []
+    pair = ["raw %x %s" % (2 * g.slot, ring.hdr_bytes(("F", 200, "IP", "IP", "UN"), g.cap).hex()),
+            "raw %x %s" % (3 * g.slot, ring.hdr_bytes(("P", 201, "IP", "IP", "UN"), g.cap).hex())]
+    for kind in (0, 1):
+        for seq in (0, 7, 199):
+            for e in EXT:
+                for i in INT:
+                    for b in BOOT:
+                        for pslot in (0, 1):
+                            w = [kind, seq, ring.SZ, ring.CNT if kind == 0 else g.cap, e, i, b]
+                            ops = ["raw %x %s" % (pslot * g.slot, enc(w).hex())] + pair + ["bl", "fb", "recover", "drop", "hdrs"]
+                            cases.append("4 %d %d|%s" % (g.slot, g.blk, ";".join(ops)))
+                            meta.append((w, pslot))
+    fvh = core.build_harness("matrix")
+    impl = core.run_stream(fvh, "session", cases)
+    for c, raw, (w, pslot) in zip(cases, impl, meta):
+        out = session.parse_out(raw)
+        if len(out) != 8:
+            chk.failures.append(core.Failure("harness produced no / truncated result", "session", "matrix", c, raw, key="crash")); break
+        cls = ref_total(w)
+        bl, fb, rec = out[3][0], out[4][0], out[5]
+        ops = [(k, a // g.slot) for k, a, ln, d, z in session.expand_log(rec[1], g.blk) if a // g.slot == pslot]
+        want_bl = {"BootloadWriteInProgress": "inc:%d" % pslot, "FirstBootPendingAck": "fail:%d" % pslot}.get(cls, "idle") if w[0] == 0 else "idle"
+        want_fb = "some:%d" % pslot if cls == "ConfirmedImage" else "none"
+        want_rec = "abort" if cls == "AppWriteInProgress" else "erase" if cls in ("BootloadWriteInProgress", "InvalidNeedsErase") else "nothing"
+        got_rec = "nothing" if not ops else "erase" if all(k == "E" for k, _ in ops) else "abort" if [k for k, _ in ops] == ["W"] else "other"
+        msgs = []
+        if bl != want_bl: msgs.append("bl_boot_status = %s, a %s header (kind %d) in slot %d must give %s" % (bl, cls, w[0], pslot, want_bl))
+        if fb != want_fb: msgs.append("fallback_firmware = %s, a %s header in slot %d must give %s" % (fb, cls, pslot, want_fb))
+        if not rec[0].startswith("some"): msgs.append("try_recover = %s although a resumable pair is present" % rec[0])
+        elif got_rec != want_rec: msgs.append("recovery remediation of a %s header (ext %#x int %#x boot %#x): %s, the lifecycle table prescribes %s" % (cls, w[4], w[5], w[6], got_rec, want_rec))
+        for m in msgs[:1]:
+            chk.failures.append(core.Failure(m, "session", "matrix", c, raw[:1500], key="c11-class"))
+    chk.note_cases("classification-probe", cases, cases, sample_n=1, dist={"triples": 18, "kinds": 2, "sequence_numbers": 3, "probe_slots": 2})
+    try:
+        fvm = core.build_fvm()
+        model = core.run_stream(fvm, "session", cases)
+        chk.correspond("classification-probe", "matrix", cases, impl, model)
+    except core.BuildError as e:
+        chk.broken.append(("correspondence", "classification-probe[model build]", {"detail": str(e)[-1500:]}))
+
+
 def run(chk):
     rnd = random.Random(chk.seed)
     variant = "matrix"
@@ -211,9 +260,10 @@ def run(chk):
         chk.correspond("layout", variant, cases, impl, model)
     except core.BuildError as e:
         chk.broken.append(("correspondence", "layout[model build]", {"detail": str(e)[-1500:]}))
+    classification_probe(chk)
     return chk.finish(
         level="proof",
-        rule="layout stream: P = byte strings (all field-domain pairs, classification table, random, torn status words between every ordered code pair), "
+        rule="classification-probe: every legal (kind, ext, int, boot) header x 3 sequence numbers x 2 slots beside a resumable pair: bl / fallback / recovery remediation vs the lifecycle table and the model; layout stream: P = byte strings (all field-domain pairs, classification table, random, torn status words between every ordered code pair), "
              "E = typed headers encoded then re-parsed, M = status marks on programmed headers; a case is non-trivial when it parses / encodes / marks (not a plain reject); distinct by case text",
         trusted=core.TRUSTED_COMMON + ["C11: the reference codec in fvlib/c11.py (oracle) is written from the property text"],
     )
